@@ -29,6 +29,13 @@ def loads(string, fmt="kvn"):
 
 def dumps(data, **kwargs):
 
+    if isinstance(data, (list, tuple)) and not isinstance(data, MeasureSet):
+        # list of MeasureSet, as given by the reading of a multi-segments TDM
+        merged = MeasureSet()
+        for measures in data:
+            merged.extend(measures)
+        data = merged
+
     fmt = get_format(**kwargs)
 
     if fmt == "kvn":
